@@ -20,6 +20,15 @@ def collect(ctx, rand_n=0, extra_vecs=None):
         anno = [v for v in vecs if v["kind"] == "anno"]
         cls = [v for k, v in enumerate(v for v in vecs if v["kind"] == "indel") if (k + ctx.seed) % 4 == 0]
         vecs = anno + cls
+    # the annotation file's own layout: CRLF line ends and / or an unterminated last line for three vectors in four
+    for k, v in enumerate(x for x in vecs if x["kind"] == "anno"):
+        m = (k + ctx.seed) % 4
+        if m in (1, 3):
+            v["annocrlf"] = True
+        if m in (2, 3):
+            v["annononl"] = True
+        if (k // 4 + ctx.seed) % 2 == 0:
+            v["gffplain"] = True       # no ##FASTA section: a feature row ends the file; Name is the last attribute of a row
     vecs += kernel.rand_vectors(ctx, "variants", rand_n)
     vecs += extra_vecs or []
     return kernel.run_vectors(ctx, "variants", vecs, timeout=6000)
@@ -66,5 +75,6 @@ RULE = ("TLC steps the indel scanner against the declarative IndelsOf for every 
         "layouts (single, joined with a gap, joined with segments that are not multiples of 3, complement(join) and join(complement), nested mature "
         "peptide, codon_start 2, unnamed GFF CDS, overlapping genes) x 3 reference gappings, each with 227 queries (every single-site change of "
         "every position to each of the three other bases / an incompatible code / a compatible code / N / gap, double changes inside codons, insertions) under "
-        "16 option sets (GenBank/GFF, --append-snps, windows, --aggregate thresholds, stdin, threads, reference from file or annotation); "
+        "16 option sets (GenBank/GFF, --append-snps, windows, --aggregate thresholds, stdin, threads, reference from file or annotation), the "
+        "annotation files with LF / CRLF line ends, a terminated / unterminated last line, GFF3 with and without a ##FASTA section; "
         "non-trivial = an alignment for which at least one mutation is reported")
